@@ -6,6 +6,7 @@ import (
 	"math/rand"
 	"reflect"
 	"sort"
+	"strconv"
 	"strings"
 
 	"sigs.k8s.io/kustomize/kyaml/kio/filters"
@@ -80,6 +81,10 @@ func init() {
 		gen := components["fmt.node"]
 		for _, cs := range caseSeeds(seed, n, "C20") {
 			r := rand.New(rand.NewSource(cs))
+			if r.Intn(5) == 0 {
+				c20Schema(o, r, cs)
+				continue
+			}
 			ndocs := 1 + r.Intn(3)
 			var sb strings.Builder
 			cnt := 0
@@ -154,4 +159,112 @@ func hasDupKeys(s string) bool {
 		}
 	}
 	return false
+}
+
+// c20Schema: FormatFilter{UseSchema: true} on built-in kinds.  A table of fields with their schema types, filled with
+// adversarial scalars in every quoting style; the expectation comes from reading the scalar as a YAML 1.1 reader
+// (sigs.k8s.io/yaml) does before and after:
+//   int-or-string  the parsed value is unchanged (a quoted "8080" stays a string, a plain 8080 stays a number);
+//   string         the parsed value is the string with that text;
+//   integer/boolean/number  a text of that type is read as that type afterwards (quotes removed), other text that
+//                  is not a YAML 1.1 keyword is unchanged.
+func c20Schema(o *oracleRun, r *rand.Rand, cs int64) {
+	type fld struct{ path, typ string }
+	quote := func(v string) string {
+		switch r.Intn(3) {
+		case 0:
+			return "\"" + v + "\""
+		case 1:
+			return "'" + v + "'"
+		}
+		if v == "" {
+			return "\"\""
+		}
+		return v
+	}
+	vals := map[string][]string{
+		"int-or-string": {"8080", "80", "http", "25%", "1", "metrics"},
+		"string":        {"8080", "on", "true", "abc", "1.5", "012", "no", "x-y", "1e3", "yes"},
+		"integer":       {"3", "8080", "0"},
+		"boolean":       {"true", "false", "on", "no"},
+	}
+	var doc string
+	var fields []fld
+	set := map[string]string{}
+	put := func(path, typ string) string {
+		v := quote(pickS(r, vals[typ]))
+		fields = append(fields, fld{path, typ})
+		set[path] = v
+		return v
+	}
+	if r.Intn(2) == 0 {
+		doc = "apiVersion: v1\nkind: Service\nmetadata:\n  name: s\n  labels:\n    l: " + put("metadata.labels.l", "string") +
+			"\n  annotations:\n    a: " + put("metadata.annotations.a", "string") +
+			"\nspec:\n  publishNotReadyAddresses: " + put("spec.publishNotReadyAddresses", "boolean") +
+			"\n  ports:\n  - name: " + put("spec.ports.0.name", "string") + "\n    port: " + put("spec.ports.0.port", "integer") +
+			"\n    targetPort: " + put("spec.ports.0.targetPort", "int-or-string") +
+			"\n  - port: " + put("spec.ports.1.port", "integer") + "\n    targetPort: " + put("spec.ports.1.targetPort", "int-or-string") + "\n"
+	} else {
+		doc = "apiVersion: apps/v1\nkind: Deployment\nmetadata:\n  name: d\n  labels:\n    l: " + put("metadata.labels.l", "string") +
+			"\nspec:\n  replicas: " + put("spec.replicas", "integer") + "\n  paused: " + put("spec.paused", "boolean") +
+			"\n  strategy:\n    rollingUpdate:\n      maxUnavailable: " + put("spec.strategy.rollingUpdate.maxUnavailable", "int-or-string") +
+			"\n  template:\n    spec:\n      containers:\n      - name: c\n        image: " + put("spec.template.spec.containers.0.image", "string") +
+			"\n        args:\n        - " + put("spec.template.spec.containers.0.args.0", "string") +
+			"\n        env:\n        - name: E\n          value: " + put("spec.template.spec.containers.0.env.0.value", "string") +
+			"\n        livenessProbe:\n          httpGet:\n            port: " + put("spec.template.spec.containers.0.livenessProbe.httpGet.port", "int-or-string") + "\n"
+	}
+	rn, err := yaml.Parse(doc)
+	if err != nil {
+		o.note("schema-unparsable-input", doc)
+		return
+	}
+	if _, err := (filters.FormatFilter{UseSchema: true}).Filter([]*yaml.RNode{rn}); err != nil {
+		o.note("schema-err", doc)
+		return
+	}
+	out, _ := rn.String()
+	// idempotence with the schema on
+	rn2, _ := yaml.Parse(out)
+	filters.FormatFilter{UseSchema: true}.Filter([]*yaml.RNode{rn2})
+	if out2, _ := rn2.String(); out2 != out {
+		o.fail("not-idempotent", "schema-aware fmt(fmt(x)) != fmt(x)", cs, doc, firstDiff(out, out2), nil)
+	}
+	o.note("schema-ok", doc)
+	din, e1 := parseDocs(doc)
+	dout, e2 := parseDocs(out)
+	if e1 != nil || e2 != nil || len(din) != 1 || len(dout) != 1 {
+		o.fail("output-unparsable", "schema-aware formatting output does not parse", cs, doc, out, nil)
+		return
+	}
+	for _, f := range fields {
+		var p []interface{}
+		for _, st := range strings.Split(f.path, ".") {
+			if i, err := strconv.Atoi(st); err == nil {
+				p = append(p, i)
+			} else {
+				p = append(p, st)
+			}
+		}
+		before, _ := getPath(map[string]interface{}(din[0]), p)
+		after, _ := getPath(map[string]interface{}(dout[0]), p)
+		text := strings.Trim(set[f.path], "\"'")
+		var plain interface{}
+		k8syaml.Unmarshal([]byte(text), &plain)
+		want := before
+		switch f.typ {
+		case "string":
+			want = text
+		case "integer":
+			if _, isNum := plain.(float64); isNum {
+				want = plain
+			}
+		case "boolean":
+			if _, isB := plain.(bool); isB {
+				want = plain
+			}
+		}
+		if !reflect.DeepEqual(after, want) {
+			o.fail("schema-typed-value-changed:"+f.typ, fmt.Sprintf("field %s (%s) written %s: read as %#v before, %#v after formatting with the schema; expected %#v", f.path, f.typ, set[f.path], before, after, want), cs, doc, after, want)
+		}
+	}
 }
